@@ -240,6 +240,19 @@ def handle (s : St) (line : String) : St × String :=
           | .panic _ => "panic")
       else (s, "bad-op")
     | _, _ => (s, "bad-op")
+  | ["Q", kind, off, t, hex] =>
+    match off.toNat?, t.toNat?, bytesOfHex hex with
+    | some o, some t, some bs =>
+      if o < 8 then
+        let r := if kind = "radio" then parseRadio ⟨bs, o⟩ t
+                 else if kind = "sotdma" then parseSotdma ⟨bs, o⟩ else parseItdma ⟨bs, o⟩
+        (s, match r with
+          | .ok (kv, c) =>
+            kv.foldl (fun acc (k, v) => acc ++ " " ++ keyName k ++ "=" ++ renderVal v) "ok" ++ " rest=" ++ toString c.remaining
+          | .err _ => "err"
+          | .panic _ => "panic")
+      else (s, "bad-op")
+    | _, _, _ => (s, "bad-op")
   | ["F", lo, hi] =>
     match lo.toNat?, hi.toNat? with
     | some l, some h => (s, f32Cross l h)
